@@ -14,7 +14,8 @@ RULE = ('Pairs (equal and unequal lengths, ndim 1..2) x base settings x a compar
         'between calls, independent of any reference: d(s,s)=0, d>=0, d(s1,s2;psi=(a,b,c,d)) = d(s2,s1;psi=(c,d,a,b)), '
         'monotonicity in window/psi/max_step/penalty (inf ordered last, slack 1e-9), window=1 on equal lengths = ED, '
         'square distance matrix symmetric with zero diagonal and entry (a,b) = d(s[b],s[a]), for a list of four series and for the same series cut to a common length and handed over as one 2-D / 3-D array (under the drawn window and under window 1, where entries are also the Euclidean distance). Non-trivial: lengths >= 2 '
-        'and (a related pair of results differs strictly, or the lengths are unequal).')
+        'and (a related pair of results differs strictly, or the lengths are unequal).'
+        ' The swap law is also stated through the matrix routine: [s1,s2] under psi (a,b,c,d) and [s2,s1] under (c,d,a,b) have the same entry, equal to the single-pair distance (serial engines; one case in 8 also the multiprocessing and OpenMP engines in a separate interpreter).')
 ASSUMPTIONS = ['finite doubles |x| <= 1e3, lengths <= 12', 'relative slack 1e-9 on every (in)equality']
 
 
@@ -40,6 +41,7 @@ def _case(draw, max_len):
     case['psi_grown'] = g
     case['pen_grown'] = (case['penalty'] or 0) + draw(st.sampled_from([0.25, 0.5, 1.0, 3.0]))
     case['ms_factor'] = draw(st.sampled_from([1.25, 2.0, 10.0]))
+    case['par_routes'] = draw(st.integers(0, 7)) == 0
     return case
 
 
@@ -185,6 +187,54 @@ def run(case):
                 v, exc = libcall(f, S[b], S[a], **mkw)
                 if exc is None and not ref.close(M[a, b], v):
                     res.fail(eng + ':matrix-entry', 'M[%d,%d]=%r but d(s[%d],s[%d])=%r' % (a, b, M[a, b], b, a, v))
+    # the swap law through the matrix routines: [s1, s2] under psi (a,b,c,d) and [s2, s1] under (c,d,a,b) have the same single
+    # entry, and it is the single-pair distance - for every engine of the matrix routine (serial; in one case in 8 also the
+    # multiprocessing and OpenMP engines, in a separate interpreter)
+    pl = gen.psi_to_lib(case['psi'])
+    if isinstance(pl, (tuple, list)):
+        sw = type(pl)([pl[2], pl[3], pl[0], pl[1]])
+    else:
+        sw = pl
+    skw = dict(mkw)
+    routes = [('py', False, False, False), ('c', True, False, False)]
+    if case.get('par_routes'):
+        routes += [('py-mp', False, True, True), ('c-mp', True, True, True), ('c-omp', True, True, False)]
+    for name, use_c, par, mp in routes:
+        vals = []
+        for A, B, P in ((s1, s2, pl), (s2, s1, sw)):
+            if not par:
+                ser = [np.array(x, dtype=np.double) for x in (A, B)] if (use_c or nd > 1) else [list(A), list(B)]
+                fn = dtw.distance_matrix if nd == 1 else dtw_ndim.distance_matrix
+                extra = {} if nd == 1 else {'ndim': nd}
+                M, exc = libcall(fn, ser, use_c=use_c, parallel=False, compact=True, psi=P, **skw, **extra)
+                if exc:
+                    res.fail('%s:matrix-swap:%s' % (name, exc), 'distance_matrix raised')
+                    vals = None
+                    break
+                vals.append(float(M[0]))
+            else:
+                from .. import childclient
+                ch = childclient.get(nonumpy=False, key='c10-par', env_extra={'OMP_WAIT_POLICY': 'passive'})
+                kw = {'compact': True, 'parallel': True, 'use_c': use_c, 'use_mp': mp, 'psi': [int(x) for x in P] if isinstance(P, (tuple, list)) else (None if P is None else int(P))}
+                kw.update(skw)
+                if nd > 1:
+                    kw['ndim'] = nd
+                r = ch.call('dtw.distance_matrix' if nd == 1 else 'dtw_ndim.distance_matrix', [[A, B]], kw,
+                            {'0': 'list-ndarray'}, cpu_count=2, omp_threads=2)
+                if 'exc' in r:
+                    res.fail('%s:matrix-swap:%s' % (name, r['exc']), 'distance_matrix raised')
+                    vals = None
+                    break
+                vals.append(float(r['ok'][0]))
+        if vals is None:
+            continue
+        if not ref.close(vals[0], vals[1]):
+            res.fail(name + ':matrix-swap', 'distance_matrix([s1,s2], psi=%r)=%r but distance_matrix([s2,s1], psi=%r)=%r'
+                     % (pl, vals[0], sw, vals[1]))
+        f = dict(_engines(case))['c' if use_c else 'py']
+        v, exc = libcall(f, s1, s2, psi=pl, **skw)
+        if exc is None and not ref.close(vals[0], float(v)):
+            res.fail(name + ':matrix-swap-entry', 'distance_matrix([s1,s2], psi=%r)=%r, single-pair distance %r' % (pl, vals[0], v))
     # the same laws when the collection is ONE array (2-D, or 3-D for n-D points): the four series cut to a common length,
     # under the drawn window and under window 1 (where each entry is also the Euclidean distance unless max_step forbids
     # a diagonal pair, in which case it is infinite)
